@@ -172,6 +172,29 @@ func detRandomConfig(rng *vRNG, dynamic bool) detConfig {
 	c.Warmer = rng.Bool()
 	c.OneDiff = rng.Bool()
 	c.Dynamic = dynamic
+	if !dynamic && rng.Chance(40) {
+		// temp-thresh-min/max belong to the dynamic threshold; with a fixed threshold they
+		// may be set (e.g. left over in config.toml) and must not matter
+		t := int(c.Temp)
+		pick := func(vals ...int) uint16 {
+			v := vals[rng.Intn(len(vals))]
+			if v < 1 {
+				v = 1
+			}
+			if v > 65535 {
+				v = 65535
+			}
+			return uint16(v)
+		}
+		switch rng.Intn(3) {
+		case 0:
+			c.TMin = pick(t+1, t+500, t+int(c.Delta)+5)
+		case 1:
+			c.TMax = pick(t-1, t-500, t/2+1)
+		default:
+			c.TMin, c.TMax = pick(t+100), pick(t+1000)
+		}
+	}
 	if dynamic {
 		c.PreviewFrames = rng.PickInt(0, 1, 9, 45)
 		if rng.Bool() {
